@@ -51,7 +51,25 @@ theorem rebinding_sound (g : Graph) (first : MName) (fuel : Nat) (P : MName) (c 
     (hfin : (eval g first fuel).2 = []) (hok : (eval g first fuel).1.err = none)
     (hloaded : (eval g first fuel).1.loaded P = true) :
     (eval g first fuel).1.lookup P c = some (.module (P ++ [c])) := by
-  sorry
+  have _ := hP
+  -- the Boolean `safeTail` implies the propositional `SafeT` of the lemma file
+  have hsafe : ∀ l : List Stmt, safeTail P l = true → SafeT P l := by
+    intro l
+    induction l with
+    | nil => intro _ st hst; cases hst
+    | cons a l ih =>
+      intro h st hst
+      cases a with
+      | rebind k t =>
+        simp only [safeTail, Bool.and_eq_true, beq_iff_eq] at h
+        rcases List.mem_cons.1 hst with rfl | hst
+        · exact ⟨k, by rw [h.1]⟩
+        · exact ih h.2 st hst
+      | _ => simp [safeTail] at h
+  simp only [endsWithRebind, Bool.and_eq_true, List.any_eq_true, beq_iff_eq] at hend
+  obtain ⟨hs, x, hx, rfl⟩ := hend
+  exact rebinding_sound_core g first fuel P c src hsrc
+    (hasTarget_of_suffix P c src.body _ _ (suffix_decomp _ src.body) (hsafe _ hs) hx) hfin hok hloaded
 
 /-- Consequence for the documented paths: in any completed, error-free run over a graph that extends
     the current static graph's documented packages unchanged, every documented child resolves to its
@@ -62,7 +80,19 @@ theorem documented_children_resolve (g : Graph) (first : MName) (fuel : Nat)
     (P : MName) (cs : List String) (hmem : (P, cs) ∈ docChildren) (c : String) (hc : c ∈ cs)
     (hloaded : (eval g first fuel).1.loaded P = true) :
     (eval g first fuel).1.lookup P c = some (.module (P ++ [c])) := by
-  sorry
+  have hsafe := static_safe
+  simp only [Safe, List.all_eq_true] at hsafe
+  have hP := hsafe (P, cs) hmem
+  simp only [← hext P cs hmem] at hP
+  have hne : P ≠ [] := by
+    simp only [docChildren, List.mem_cons, Prod.mk.injEq, List.not_mem_nil, or_false] at hmem
+    rcases hmem with ⟨rfl, _⟩ | ⟨rfl, _⟩ | ⟨rfl, _⟩ | ⟨rfl, _⟩ <;> simp
+  cases hsrc : g.src? P with
+  | none => rw [hsrc] at hP; cases hP
+  | some src =>
+    rw [hsrc] at hP
+    simp only [List.all_eq_true] at hP
+    exact rebinding_sound g first fuel P c src hne hsrc (hP c hc) hfin hok hloaded
 
 /-! Non-vacuity (tests, labelled as such): a tiny graph where a star-import clobbers a child, with and
     without the re-binding statement. -/
